@@ -1,7 +1,11 @@
 package checks
 
 import (
+	"encoding/json"
 	"fmt"
+	"os"
+	"os/exec"
+	"path/filepath"
 	"sort"
 	"strings"
 
@@ -125,6 +129,71 @@ func ReplicaExtra(prop, tier string, shard, of int) ExtraResult {
 			}
 		}
 	}
+	// C03 only: restart in a NEW OPERATING-SYSTEM PROCESS over an on-disk database after every block of every script
+	// (this also resets Go package-level state, which an in-process restart cannot)
+	procRestarts := 0
+	if prop == "C03" {
+		self, _ := os.Executable()
+		child := func(sc *replica.Script, dir string, from, to int) ([]replica.Item, error) {
+			out := filepath.Join(dir, fmt.Sprintf("part-%d-%d.json", from, to))
+			cmd := exec.Command(self, "rpart", sc.Name, filepath.Join(dir, "db"), fmt.Sprint(from), fmt.Sprint(to), out)
+			cmd.Env = append(os.Environ(), "GOMAXPROCS=2", fmt.Sprintf("VERIF_WALLNOW=%d", WallNow()))
+			if b, err := cmd.CombinedOutput(); err != nil {
+				return nil, fmt.Errorf("%v: %s", err, b)
+			}
+			bz, err := os.ReadFile(out)
+			if err != nil {
+				return nil, err
+			}
+			var items []replica.Item
+			return items, json.Unmarshal(bz, &items)
+		}
+		idx := 0
+		for _, sc := range scripts {
+			n := len(sc.Blocks)
+			var base []replica.Item
+			for k := 0; k < n; k++ { // k == 0: the uninterrupted child
+				idx++
+				if k != 0 && idx%of != shard {
+					continue
+				}
+				if k == 0 {
+					// every shard needs the baseline of the scripts it works on
+				}
+				dir, _ := os.MkdirTemp("", "saomc-prestart-")
+				var got []replica.Item
+				var err error
+				if k == 0 {
+					got, err = child(sc, dir, 0, n)
+					base = got
+				} else {
+					var a1, a2 []replica.Item
+					a1, err = child(sc, dir, 0, k)
+					if err == nil {
+						a2, err = child(sc, dir, k, n)
+					}
+					got = append(a1, a2...)
+					procRestarts++
+				}
+				os.RemoveAll(dir)
+				if err != nil {
+					panic("HARNESS: process-restart child failed: " + err.Error())
+				}
+				if k == 0 {
+					continue
+				}
+				d := replica.Diff(&replica.Transcript{Items: base}, &replica.Transcript{Items: got})
+				if d != "" {
+					f := fd(prop, "replica-divergence", "process-restart", fmt.Sprintf("%s restarted in a new process after block %d: %s", sc.Name, k, d))
+					f.Op = "process-restart"
+					f.Trace = []string{sc.Name, fmt.Sprintf("process-restart after block %d", k)}
+					findings[f.Sig()] = f
+				}
+				runs++
+				applied++
+			}
+		}
+	}
 	var sigs []string
 	for s := range findings {
 		sigs = append(sigs, s)
@@ -133,6 +202,7 @@ func ReplicaExtra(prop, tier string, shard, of int) ExtraResult {
 	for _, s := range sigs {
 		res.Findings = append(res.Findings, findings[s])
 	}
+	res.Notes["restarts_in_a_new_os_process"] = procRestarts
 	res.Evaluations = runs
 	res.Distinct = applied
 	res.Notes["replica_runs"] = runs
